@@ -48,6 +48,7 @@ fn main() {
         "C05" => props::c03::run_c05(&report, &tier),
         "C06" => props::c06::run(&report, &tier),
         "C07" => props::c07::run(&report, &tier),
+        "C10" => props::c10::run(&report, &tier),
         "C11" => props::c11::run(&report, &tier),
         "C12" => props::c12::run(&report, &tier),
         "C13" => props::c13::run(&report, &tier),
